@@ -16,7 +16,7 @@ import dates as D   # noqa: E402
 from parallel import driver_parallel  # noqa: E402
 
 GEN = ['DateK', 'Calendar', 'DateLogic']
-PROPS = ['FinVerif.Props.C13', 'FinVerif.Props.C13b', 'FinVerif.Props.C13c']
+PROPS = ['FinVerif.Props.C13', 'FinVerif.Props.C13b', 'FinVerif.Props.C13c', 'FinVerif.Props.C13d']
 DRIVERS = ['FinVerif.Driver.C13']
 SPEC_DRIVERS = ['FinVerif.Driver.C13Spec']
 
